@@ -22,8 +22,8 @@ META = {
             "original zone (content and TTLs) with Zone == true. Conformance of the writer's text to the writer "
             "specification (lexed back to abstract lines) is validated too, but only counted as drift in evidence.",
     "note": "Exhaustive inside the MC/Gen constants (4 owner names + $GENERATE names, 8 types, 2-7 rdatas per type, TTLs "
-            "{5,300,600}, curated zones of 3-5 records + all single-record zones, 288 semantic style vectors x relativized/"
-            "absolute; pairwise-exhaustive over all 11 knobs in quick, full 4608-vector product in thorough); random zones of "
+            "{0,5,300,600}, curated zones of 3-5 records + all single-record zones, 384 semantic style vectors x relativized/"
+            "absolute; pairwise-exhaustive over all 11 knobs in quick, full 6144-vector product in thorough); random zones of "
             "up to 5 records and deep spellings are seeded TLC simulations. Layout-only knobs (justification, chunking, "
             "comments, nl) are free in the specification and exercised on the code. Trusted: TLC, Json module, the printer / "
             "lexer / projection in drivers/c09_zonefile.py (own wire codec, no dnspython text code).",
@@ -36,7 +36,7 @@ BASE = """CONSTANTS
   ZO <- UZO
   LabelRank <- URank
   SpOrigins <- UOrigins
-  SpTTLs = {{300, 5}}
+  SpTTLs = {{300, 5, 0}}
   SpNoise <- UNoise
   SpGenerates <- UGenerates
   SpMaxExtra = {maxextra}
